@@ -159,6 +159,7 @@ func (s *sim) inject(t *rapid.T) ([]byte, bool) {
 func c01Property(t *rapid.T) {
 	c := c01()
 	cfg := genSimCfg(t)
+	drawExtras(t, c, &cfg)
 	s := newSim(t, c, cfg)
 	defer s.close()
 	mon := &c01mon{feat: map[string]bool{}, lastT: 1}
